@@ -123,7 +123,7 @@ def limits_for(pattern, g, c):
 
 
 IFACE_MODELS = ["cylinder", "core_shell_sphere", "parallelepiped", "ellipsoid"]
-SV_SPECS = [("width", 0.15), ("width", 0.3), ("npts", 4), ("npts", 1), ("nsigmas", 2.0), ("type", "schulz"),
+SV_SPECS = [("width", 0.15), ("width", 1.5), ("npts", 4), ("npts", 1), ("nsigmas", 2.0), ("type", "schulz"),
             ("type", "rectangle"), ("value", 1.37)]
 
 
